@@ -15,7 +15,7 @@ import equiv
 import ic10load
 from common import MachineryError, Reporter, SPEC, known_findings, run_tlc, seed, workdir, write_evidence
 
-LANG_FAMS = ["branches", "loops", "functions", "pressure", "access"]
+LANG_FAMS = ["branches", "loops", "functions", "pressure", "access", "lists"]
 
 
 def all_progs(fams=LANG_FAMS):
